@@ -99,10 +99,24 @@ struct Case {
     /// 0 sync read, 1 async read, 2 decode off + post_validate_async(CawgValidator)
     read_mode: u8,
     mutation: Mutation,
+    /// number of ingredients added to the builder (0..=3): assertions `c2pa.ingredient.v3`, `…__1`, `…__2`
+    #[serde(default)]
+    n_ingredients: u8,
+    /// which ingredient assertion instances (bit i = instance i) the identity assertion is asked to reference
+    #[serde(default)]
+    ing_ref_mask: u8,
+    /// extra copies (0..=2) of the first definition assertion: instances `org.verif.alpha__1`, `…__2`
+    #[serde(default)]
+    extra_copies: u8,
+    /// which of those extra instances are referenced (bit 0 = `__1`, bit 1 = `__2`; the base instance is `ref_mask` bit 0)
+    #[serde(default)]
+    copy_ref_mask: u8,
 }
 
 const ALGS: [&str; 5] = ["ed25519", "es256", "es384", "ps256", "es512"];
 const LABELS: [&str; 5] = ["org.verif.alpha", "cawg.training-mining", "org.verif.gamma", "stds.schema-org.CreativeWork", "org.verif.epsilon"];
+const ING_LABELS: [&str; 3] = ["c2pa.ingredient.v3", "c2pa.ingredient.v3__1", "c2pa.ingredient.v3__2"];
+const COPY_LABELS: [&str; 2] = ["org.verif.alpha__1", "org.verif.alpha__2"];
 const ROLES: [&str; 5] = ["cawg.creator", "cawg.contributor", "cawg.editor", "cawg.producer", "org.verif.role"];
 const SIG_TYPES: [&str; 4] = ["cawg.x509.cose.v2", "org.verif.sig", "cawg.identity_claims_aggregation", ""];
 
@@ -477,6 +491,33 @@ struct Notes {
     not_applied: bool,
     size_given: Option<bool>,
     refs: usize,
+    /// URLs of the referenced assertions as the SDK builder produced them (before any rewrite)
+    urls: Vec<String>,
+}
+
+/// `…/c2pa.assertions/c2pa.ingredient.v3__2` -> `c2pa.ingredient` (instance suffix and version stripped)
+fn base_label(url: &str) -> String {
+    let l = url.rsplit('/').next().unwrap_or(url);
+    let l = match l.rfind("__") {
+        Some(i) if l[i + 2..].chars().all(|c| c.is_ascii_digit()) && i + 2 < l.len() => &l[..i],
+        _ => l,
+    };
+    match l.rfind(".v") {
+        Some(i) if l[i + 2..].chars().all(|c| c.is_ascii_digit()) && i + 2 < l.len() => l[..i].to_string(),
+        _ => l.to_string(),
+    }
+}
+
+/// at least two *different* referenced assertions share a base label (several instances / versions of one label)
+fn multi_instance(urls: &[String]) -> bool {
+    for (i, a) in urls.iter().enumerate() {
+        for b in &urls[i + 1..] {
+            if a != b && base_label(a) == base_label(b) {
+                return true;
+            }
+        }
+    }
+    false
 }
 
 struct Rewriter {
@@ -498,6 +539,9 @@ fn post_content(
             n.size_given = Some(size.is_some());
             if let Ok(mut v) = ciborium::de::from_reader::<Cbor, _>(&b[..]) {
                 n.refs = refs_mut(&mut v).map(|a| a.len()).unwrap_or(0);
+                n.urls = refs_mut(&mut v)
+                    .map(|a| a.iter_mut().filter_map(|r| map_get(r, "url").and_then(|u| u.as_text().map(|s| s.to_string()))).collect())
+                    .unwrap_or_default();
             }
             match rewrite(&b, size, claim, m) {
                 Some(out) => DynamicAssertionContent::Cbor(out),
@@ -633,6 +677,9 @@ fn definition(c: &Case) -> Value {
         };
         assertions.push(json!({"label": label, "data": data}));
     }
+    for k in 0..c.extra_copies.min(2) {
+        assertions.push(json!({"label": LABELS[0], "data": {"note": format!("copy {k}"), "copy": k + 1}}));
+    }
     json!({
         "title": "c33",
         "claim_generator_info": [{ "name": "verif-harness", "version": "0.1" }],
@@ -646,7 +693,22 @@ fn referenced_labels(c: &Case) -> Vec<&'static str> {
     if c.ref_mask & 0x20 != 0 {
         v.push("c2pa.actions.v2");
     }
+    for i in 0..c.n_ingredients.min(3) as usize {
+        if c.ing_ref_mask & (1 << i) != 0 {
+            v.push(ING_LABELS[i]);
+        }
+    }
+    for k in 0..c.extra_copies.min(2) as usize {
+        if c.copy_ref_mask & (1 << k) != 0 {
+            v.push(COPY_LABELS[k]);
+        }
+    }
     v
+}
+
+fn ingredient_bytes() -> &'static Vec<u8> {
+    static B: std::sync::OnceLock<Vec<u8>> = std::sync::OnceLock::new();
+    B.get_or_init(|| sdk::fixture("libpng-test.png"))
 }
 
 fn block_on<F: std::future::Future>(f: F) -> F::Output {
@@ -657,6 +719,10 @@ fn sign_case(c: &Case, asset: &Asset, with_identity: bool, notes: &Arc<Mutex<Not
     let ctx = sdk::context_with(&sdk::base_settings(false));
     let mut b = Builder::from_context(ctx).with_definition(definition(c).to_string())?;
     b.set_intent(BuilderIntent::Create(DigitalSourceType::Empty));
+    for i in 0..c.n_ingredients.min(3) {
+        let ij = json!({"title": format!("ingredient {i}"), "relationship": "componentOf"}).to_string();
+        b.add_ingredient_from_stream(ij, "image/png", &mut Cursor::new(ingredient_bytes().clone()))?;
+    }
     let c2pa_alg = ALGS[c.c2pa_alg as usize % ALGS.len()];
     let cawg_alg = ALGS[c.cawg_alg as usize % ALGS.len()];
     let labels = referenced_labels(c);
@@ -811,16 +877,24 @@ fn judge(run: &Run, env: &Env, c: &Case) -> CaseResult {
         }
         Err(p) => return Err(Fail::new(format!("C33:panic:{}", vh::core::panic_site(&p)), format!("sign ({mname}): {p}"))),
     };
-    let (not_applied, size_given, nrefs) = {
+    let (not_applied, size_given, nrefs, urls) = {
         let n = notes.lock().unwrap();
-        (n.not_applied, n.size_given, n.refs)
+        (n.not_applied, n.size_given, n.refs, n.urls.clone())
     };
+    let multi = multi_instance(&urls);
+    let want_refs = referenced_labels(c);
+    let missing_refs = want_refs.iter().filter(|l| !urls.iter().any(|u| u.rsplit('/').next() == Some(**l))).count();
+    if missing_refs > 0 {
+        // a requested label did not exist in the claim under that name (generator / label-scheme drift)
+        run.count("requested_reference_not_in_claim");
+    }
     let mutated = c.mutation != Mutation::None && !not_applied;
     if not_applied {
         run.count(&format!("mutation_not_applicable:{mname}"));
     }
     run.count(&format!("size_given:{size_given:?}"));
     run.count(&format!("refs:{nrefs}"));
+    run.count(&format!("ingredients:{}", c.n_ingredients.min(3)));
 
     let reader = match vh::catch(|| read_case(c, asset, &signed)) {
         Ok(Ok(r)) => r,
@@ -841,6 +915,8 @@ fn judge(run: &Run, env: &Env, c: &Case) -> CaseResult {
         Some("drop-failures") => fail.clear(),
         // sensitivity: pretend the SDK reported a failure for an untouched assertion
         Some("spurious-failure") if !mutated => fail.push("cawg.x509.signature.mismatch".into()),
+        // sensitivity: a duplicate test that compares base labels instead of whole URLs
+        Some("dup-on-multi") if multi => fail.push("cawg.identity.assertion.duplicate".into()),
         _ => {}
     }
     if env.debug {
@@ -852,6 +928,17 @@ fn judge(run: &Run, env: &Env, c: &Case) -> CaseResult {
     run.count(&format!("read_mode:{}", c.read_mode % 3));
     run.count(&format!("cawg_trust:{}", c.cawg_trust % 3));
     run.count(if c.async_sign { "sign:async" } else { "sign:sync" });
+    if multi {
+        run.count("multi_instance_refs");
+        run.count(&format!("multi_instance_refs:{shown}"));
+        let mut bases: Vec<String> = urls.iter().map(|u| base_label(u)).collect();
+        bases.sort();
+        bases.dedup();
+        for b in bases.iter().filter(|b| urls.iter().filter(|u| &base_label(u) == *b).count() > 1) {
+            run.count(&format!("multi_instance_base:{b}:x{}", urls.iter().filter(|u| &base_label(u) == b).count()));
+        }
+    }
+    const DUP: &str = "cawg.identity.assertion.duplicate";
     for f in &fail {
         run.count(&format!("code:{shown}:{f}"));
     }
@@ -883,7 +970,12 @@ fn judge(run: &Run, env: &Env, c: &Case) -> CaseResult {
         // ---- (1) an SDK-created X.509 identity assertion validates -------------------------------------
         let allowed: &[&str] = if untrusted_cfg { &["cawg.x509.credential.untrusted"] } else { &[] };
         let unexpected: Vec<&String> = fail.iter().filter(|f| !allowed.contains(&f.as_str())).collect();
-        if !unexpected.is_empty() {
+        if multi && unexpected.iter().any(|f| f.as_str() == DUP) {
+            fails.push(Fail::new(
+                "C33:distinct-instances-reported-as-duplicate",
+                format!("{}: valid identity assertion referencing {urls:?} (all different) is reported with {DUP}; state {state}", asset.label),
+            ));
+        } else if !unexpected.is_empty() {
             fails.push(Fail::new(
                 format!("C33:unmutated-identity-reports-failure:{}", unexpected[0]),
                 format!("{}: cawg failures {fail:?} (trust config {})", asset.label, c.cawg_trust % 3),
@@ -925,6 +1017,21 @@ fn judge(run: &Run, env: &Env, c: &Case) -> CaseResult {
         // only the (configuration-caused) untrusted code: the mutation itself left no trace
         run.count(&format!("only_untrusted_code:{mname}"));
     }
+    // the duplicate code belongs to a genuine duplicate (the same URL twice) and to nothing else
+    let has_dup = fail.iter().any(|f| f == DUP);
+    if matches!(c.mutation, Mutation::RefDup { .. }) {
+        if !has_dup && !fail.is_empty() {
+            fails.push(Fail::new(
+                "C33:duplicate-reference-not-reported-as-duplicate",
+                format!("{}: a reference was appended twice but the failures are {fail:?}", asset.label),
+            ));
+        }
+    } else if has_dup {
+        fails.push(Fail::new(
+            if multi { "C33:distinct-instances-reported-as-duplicate" } else { "C33:duplicate-code-without-duplicate" },
+            format!("{} ({mname}): {DUP} although no referenced URL occurs twice (built references {urls:?})", asset.label),
+        ));
+    }
     first_unknown(run, fails)
 }
 
@@ -959,14 +1066,39 @@ fn case_strategy(n_assets: usize) -> impl Strategy<Value = Case> {
         proptest::collection::vec(0u8..5, 0..3),
         (any::<bool>(), 0u8..3, any::<bool>(), 0u8..3),
         mutation_strategy(),
+        (0usize..8, 0u8..8, 0usize..6, 0u8..4, any::<bool>()),
     )
-        .prop_map(|((asset, c2pa_alg, cawg_alg, n_assertions, ref_mask), roles, (c2pa_trusted, cawg_trust, async_sign, read_mode), mutation)| {
+        .prop_map(|((asset, c2pa_alg, cawg_alg, n_assertions, ref_mask), roles, (c2pa_trusted, cawg_trust, async_sign, read_mode), mutation, (ni, ing_ref_mask, nc, copy_ref_mask, plain))| {
+            // index-mapped so that shrinking moves towards no ingredients / no copies
+            let n_ingredients = [0u8, 0, 0, 1, 2, 2, 3, 3][ni];
+            let extra_copies = [0u8, 0, 0, 1, 1, 2][nc];
             let mut ref_mask = ref_mask;
             // a swap needs two references: the hard binding is always there, ask for one more
             if matches!(mutation, Mutation::RefSwap { .. }) && ref_mask & ((1 << n_assertions) - 1) == 0 {
                 ref_mask |= 1;
             }
-            Case { asset, c2pa_alg, cawg_alg, n_assertions, ref_mask, roles, c2pa_trusted, cawg_trust, async_sign, read_mode, mutation }
+            let ing_ref_mask = ing_ref_mask & ((1 << n_ingredients) - 1);
+            let copy_ref_mask = copy_ref_mask & ((1 << extra_copies) - 1);
+            // half of the cases that reference several instances of one label stay unmutated (valid assertion class)
+            let several = ing_ref_mask.count_ones() >= 2 || copy_ref_mask.count_ones() + (ref_mask & 1) as u32 >= 2;
+            let mutation = if plain && several { Mutation::None } else { mutation };
+            Case {
+                asset,
+                c2pa_alg,
+                cawg_alg,
+                n_assertions,
+                ref_mask,
+                roles,
+                c2pa_trusted,
+                cawg_trust,
+                async_sign,
+                read_mode,
+                mutation,
+                n_ingredients,
+                ing_ref_mask,
+                extra_copies,
+                copy_ref_mask,
+            }
         })
 }
 
@@ -1013,6 +1145,53 @@ fn matrix() -> Vec<Case> {
                 async_sign: (k + cawg_trust as usize) % 2 == 1,
                 read_mode,
                 mutation: m.clone(),
+                n_ingredients: 0,
+                ing_ref_mask: 0,
+                extra_copies: 0,
+                copy_ref_mask: 0,
+            });
+        }
+    }
+    // ---- several instances of one base label among the references: every subset of the instance labels ----
+    // (n_ingredients, ingredient subset, extra copies of org.verif.alpha, base-instance referenced, copy subset)
+    let mut sets: Vec<(u8, u8, u8, bool, u8)> = vec![];
+    for n_ing in 2..=3u8 {
+        for mask in 1..(1u8 << n_ing) {
+            sets.push((n_ing, mask, 0, false, 0));
+        }
+    }
+    for copies in 1..=2u8 {
+        for sub in 1..(1u8 << (copies + 1)) {
+            sets.push((0, 0, copies, sub & 1 != 0, sub >> 1));
+        }
+    }
+    for (mask, sub) in [(0b11u8, 0b011u8), (0b111, 0b111), (0b101, 0b110), (0b110, 0b101)] {
+        sets.push((3, mask, 2, sub & 1 != 0, sub >> 1));
+    }
+    for (k, (n_ingredients, ing_ref_mask, extra_copies, base_ref, copy_ref_mask)) in sets.into_iter().enumerate() {
+        let several = ing_ref_mask.count_ones() >= 2 || (copy_ref_mask.count_ones() + base_ref as u32) >= 2;
+        let mut ms = vec![Mutation::None];
+        if several {
+            ms.push(Mutation::RefDup { idx: (k % 4) as u8 });
+            ms.push(if k % 2 == 0 { Mutation::RefSwap { i: 1, j: 2 } } else { Mutation::Pad1 { pos: 0, val: 1 } });
+        }
+        for (j, m) in ms.into_iter().enumerate() {
+            out.push(Case {
+                asset: (k % 2) as u8,
+                c2pa_alg: (k % 5) as u8,
+                cawg_alg: ((k + 2) % 5) as u8,
+                n_assertions: 1 + (k % 3) as u8,
+                ref_mask: (base_ref as u8) | if k % 4 == 0 { 0x20 } else { 0 },
+                roles: vec![],
+                c2pa_trusted: k % 2 == 1,
+                cawg_trust: if (k + j) % 2 == 0 { 0 } else { 2 },
+                async_sign: (k + j) % 2 == 1,
+                read_mode: ((k + j) % 3) as u8,
+                mutation: m,
+                n_ingredients,
+                ing_ref_mask,
+                extra_copies,
+                copy_ref_mask,
             });
         }
     }
@@ -1043,7 +1222,7 @@ fn asset_pool(run: &Run) -> Vec<Asset> {
 fn main() {
     vh::quiet_panics();
     let run = Run::from_args("C33", "exploration");
-    run.set_rule("case = (asset, C2PA signer alg, CAWG credential alg, definition with 1..5 assertions, requested referenced subset (the SDK builder always adds the hard binding), 0..2 roles, C2PA trust on/off, CAWG trust {anchors configured, none, verify_trust_list=false}, sync/async signing flow, read mode {sync, async, decode off + post_validate_async(CawgValidator)}, one mutation out of 14 kinds or none). A deterministic matrix (every mutation kind x 3 trust configurations) runs first, then random cases. Non-trivial = the mutation was really applied and the CAWG trust configuration does not by itself produce a cawg failure.");
+    run.set_rule("case = (asset, C2PA signer alg, CAWG credential alg, definition with 1..5 assertions, requested referenced subset (the SDK builder always adds the hard binding), 0..2 roles, C2PA trust on/off, CAWG trust {anchors configured, none, verify_trust_list=false}, sync/async signing flow, read mode {sync, async, decode off + post_validate_async(CawgValidator)}, one mutation out of 14 kinds or none). A deterministic matrix (every mutation kind x 3 trust configurations; every subset of the instance labels of 2-3 ingredient assertions and of 2-3 same-label custom assertions, unmutated and with a genuine duplicate / another mutation) runs first, then random cases with 0-3 ingredients and 0-2 extra same-label assertions (class multi_instance_refs = at least two different referenced assertions share a base label). Non-trivial = the mutation was really applied and the CAWG trust configuration does not by itself produce a cawg failure.");
     run.assume("the fixture C2PA credentials double as CAWG X.509 credentials (as in the SDK's own identity tests); cawg_trust.trust_anchors = the fixture root bundle makes them trusted");
     run.assume("mutations are applied before the C2PA claim is signed, through wrappers around the SDK's CredentialHolder / DynamicAssertion objects; the rewritten CBOR keeps the reserved size by resizing pad1/pad2");
     run.assume("a failed signing call for a mutated assertion is not judged (nothing to read)");
